@@ -219,10 +219,8 @@ Definition lower_keys (d : dict) : dict := map (fun kv => (lower (fst kv), snd k
    first position of a repeated (lower-cased) key and the last value *)
 Definition build_dict (l : dict) : dict := fold_left (fun acc kv => dict_set acc (fst kv) (snd kv)) l [].
 
-Definition table_init (mode : string) (stmt : dict) : res dict :=
-  match mode_info mode with
-  | None => Unsupported ("mode " ++ mode)
-  | Some (hooks, fs) =>
+(* the dataclass object right after __init__ (before __post_init__'s steps) *)
+Definition table_obj0 (fs : list field) (mode : string) (stmt : dict) : dict :=
     let kw0 := dict_set stmt "output_mode" (PStr mode) in
     (* pre_load_mods (its in-place part; running it twice changes nothing more) *)
     let kw1 := if String.eqb mode "bigquery" && truthy (get_or_none kw0 "schema")
@@ -238,7 +236,13 @@ Definition table_init (mode : string) (stmt : dict) : res dict :=
     let init_data := dict_update main props in
     let kwargs := dict_set (dict_set main "table_properties" (PDict props)) "init_data" (PDict init_data) in
     (* dataclass __init__: every field, in field order *)
-    let obj0 : dict := map (fun f => (f_name f, match dict_get kwargs (f_name f) with Some v => v | None => f_default f end)) fs in
+    map (fun f => (f_name f, match dict_get kwargs (f_name f) with Some v => v | None => f_default f end)) fs.
+
+Definition table_init (mode : string) (stmt : dict) : res dict :=
+  match mode_info mode with
+  | None => Unsupported ("mode " ++ mode)
+  | Some (hooks, fs) =>
+    let obj0 := table_obj0 fs mode stmt in
     do o1 <- set_unique_columns obj0;
     do o2 <- populate_keys o1;
     do o3 <- normalize_ref_columns o2;
